@@ -72,7 +72,7 @@ def plan(tier):
 
 def required(tier):
     return ["post:biccs", "post:all_components", "post:dfs", "exhaustive_connected_graphs",
-            "history_ops", "invariant_evals", "biccs_with_artic", "multigraph_cases"]
+            "history_ops", "invariant_evals", "biccs_with_artic", "multigraph_cases", "query_after_query"]
 
 
 # -- model ------------------------------------------------------------------------------------
@@ -260,12 +260,23 @@ def judge_graph(model, viol, situations, check_all=True):
                     viol.append({"kind": "biccs_link_cover", "msg": f"link {a}-{b} lies in {k} reported blocks"})
                     break
     starts = list(model.nodes) if check_all else list(model.nodes)[:3]
-    for s in starts:
+    for k, s in enumerate(starts):
         d = g.dfs(s)
         comp = next(c for c in comps if s in c)
         if len(d) != len(set(d)) or set(d) != comp:
             viol.append({"kind": "dfs", "msg": f"dfs({s}) = {d}; component {sorted(comp)}",
                          "witness": {"links": model.links[:40]}})
+        if k in (0, len(starts) - 1):
+            # queries are interleaved on the SAME object: a traversal must not disturb a later query
+            again = g.all_components()
+            M.hit("query_after_query")
+            if sorted(sorted(c) for c in again) != sorted(sorted(c) for c in comps):
+                viol.append({"kind": "components_after_dfs", "msg": f"all_components() after dfs({s}) on the same graph = {again}, expected {comps}",
+                             "witness": {"links": model.links[:40]}})
+    if len(comps) == 1 and len(adj) >= 2:
+        rb2, ra2 = g.biccs()
+        if sorted(sorted(c) for c in rb2) != sorted(sorted(c) for c in rb) or set(ra2) != set(ra):
+            viol.append({"kind": "biccs_after_queries", "msg": "biccs() repeated after dfs / all_components gives a different answer"})
     return g
 
 
@@ -413,6 +424,10 @@ def run_history(rng, viol, situations):
         fresh = build_real(model)
         if not (g.is_equal_to(fresh, only_topo=True) and fresh.is_equal_to(g, only_topo=True)):
             viol.append({"kind": "edit_not_equal_fresh", "msg": f"after op {step} {ops[-1]}: is_equal_to(fresh graph) is False"})
+        if model.nodes and rng.random() < 0.3:
+            s0 = rng.choice(list(model.nodes))
+            d = g.dfs(s0)  # a traversal between the edits; its own answer is judged by the contract
+            M.hit("query_after_query")
         exp = sorted(sorted(c) for c in bcc.components(model.adj()))
         got = sorted(sorted(c) for c in g.all_components())
         if exp != got:
